@@ -126,6 +126,12 @@ extern "C" void h_c08_removeRowSingleton()
 // Solver build: fixColumn/removeCol are replaced by recording models (they only execute the decision; FixVariablePS is O2's
 // subject; the loop runs downwards, so the swapped-in last column is never looked at again and the decisions are the same);
 // native build: the same record is read from the FixVariablePS entries the real fixColumn appended to the history.
+// STATUS: the oracle is validated natively (random instances pass on the unchanged code; mutations of the dual-bound computation are
+// rejected), but the solver run does not finish yet (CBMC out of memory at 8 GB after ~17 min, symbolic execution fans out); the
+// entry is therefore not listed in c08_reductions.json. Intended spec (separate spec file, because "replace" acts on the whole
+// translation unit and removeRowSingleton above needs the real SPxMainSM::removeRow):
+//   "ll2c": ["replace SPxMainSM<double>::fixColumn( => m_sd_fixColumn", "replace SPxMainSM<double>::removeCol( => m_sd_removeCol",
+//            "replace SPxMainSM<double>::removeRow( => m_sd_removeRow"], variants default / -DSENSE_MIN / -DSD_NC=3, unwind 4.
 #ifndef SD_NC
 #define SD_NC 2
 #endif
@@ -230,35 +236,3 @@ extern "C" void h_c08_simplifyDual()
    }
    vp_cover(1);
 }
-#ifdef VP_EXPERIMENT
-extern "C" void h_x1()
-{
-   const int I = RS_I, J = RS_J;
-   unsigned mask = 0; for(int i = 0; i < PNR; ++i) for(int j = 0; j < PNC; ++j) if(i != I || j == J) mask |= 1u << (i * PNC + j);
-   LP lp; Dense<PNR, PNC> d; build<PNR, PNC>(lp, d, mask, KV);
-   SM sm; sm_setup(sm, lp, PNR, PNC);
-   vp_assert(sm.m_rIdx[1] == 1, 1);
-   vp_cover(1);
-}
-extern "C" void h_x2()
-{
-   const int I = RS_I, J = RS_J;
-   unsigned mask = 0; for(int i = 0; i < PNR; ++i) for(int j = 0; j < PNC; ++j) if(i != I || j == J) mask |= 1u << (i * PNC + j);
-   LP lp; Dense<PNR, PNC> d; build<PNR, PNC>(lp, d, mask, KV);
-   SM sm; sm_setup(sm, lp, PNR, PNC);
-   std::shared_ptr<SM::PostStep> ptr(new SM::RowSingletonPS(lp, I, J, false, false, lp.lower(J), lp.upper(J), lp.lower(J), lp.upper(J), sm._tolerances));
-   sm.m_hist.append(ptr);
-   vp_assert(sm.m_hist.size() == 1, 1);
-   vp_cover(1);
-}
-extern "C" void h_x3()
-{
-   const int I = RS_I, J = RS_J;
-   unsigned mask = 0; for(int i = 0; i < PNR; ++i) for(int j = 0; j < PNC; ++j) if(i != I || j == J) mask |= 1u << (i * PNC + j);
-   LP lp; Dense<PNR, PNC> d; build<PNR, PNC>(lp, d, mask, KV);
-   lp.changeUpper(J, 3.0);
-   lp.removeRow(I);
-   vp_assert(lp.nRows() == 1, 1);
-   vp_cover(1);
-}
-#endif
